@@ -16,41 +16,59 @@ in Rust's evaluation order (operands left to right, arguments before the call, t
 indexing of its place).  `none` = a Rust panic.  A function without any panic site is emitted as a pure definition.
 
   callees     every function / method / operator impl / constant the code uses must be named by the spec (`EXT`, `OPS`, `CONSTS`
-              of tools/kernels/glue_curve.py) with its Lean rendering: these are the MODEL's functions (the limb kernels tied by
-              Props/C15/KernelTie*.lean, the SHA-512 context, the constant-time helpers tied by Props/C18KernelTie, and the model
-              functions of this layer, each of which is itself tied to ITS translation by a theorem of GlueTieCurve).  Overloaded
-              operators are resolved by the inferred operand types (`&Ge + &GeCached` ≠ `&Ge + &GePrecomp` ≠ `&Fe + &Fe`).
-              The signature of a translated function is CHECKED against its own `EXT` entry (arity, types, fallibility).
+              of tools/kernels/glue_curve.py; per function: `local_ext`, `local_consts`) with its Lean rendering: these are the
+              MODEL's functions (the limb kernels tied by Props/C15/KernelTie*.lean, the SHA-512 context, the constant-time helpers
+              tied by Props/C18KernelTie, and the model functions of this layer, each of which is itself tied to ITS translation by
+              a theorem of GlueTieCurve).  Overloaded operators are resolved by the inferred operand types (`&Ge + &GeCached` ≠
+              `&Ge + &GePrecomp` ≠ `&Fe + &Fe`).  The signature of a translated function is CHECKED against its own `EXT` entry
+              (arity, types, `&mut` parameters).  A call with `&mut` effects nested inside another expression is refused.
   types       `Fe`, `Scalar`, the six point structs = the Lean structures of the models (field lists CHECKED against the Rust
-              `struct` declarations); `[u8; N]`, `&[u8]` = `Bytes` (static length N tracked; an `[u8; N]` PARAMETER is tested on
-              entry: another length is not expressible in Rust = `none`); `[i8; N]` = `List Int`, `[T; N]` of structs = `List T`;
-              `u8` = `UInt8`; `usize`/`u64` = `Nat`; `i8` = `Int`; `bool` = `Bool`; `Choice` = `CT.Choice`; `Option<T>` = `Option T`.
-  integers    `i8`: `+ - unary-` are CHECKED (`← ckI8 (a + b)`), `<< k` wraps (`shlI8 a k`), `>> k` = floor division by `2^k`,
-              `/ lit` = `Int.tdiv`, `&` = two's complement and (`i8And`), `as u8` = `i8AsU8`, `u8 as i8` = `u8AsI8`,
-              `as usize` = `.toNat` only when the operand is known non-negative from the path condition (`match x.cmp(&0)`);
-              `usize`: an interval analysis (literals, `for` variables with known bounds, `+ * / & >>`, `min`, refinement by
-              `if x == 0 { return }`) must show that `+ *` cannot overflow and `-` cannot underflow, then they are the
-              mathematical operations; otherwise `-` is emitted with its underflow check and `+ *` are refused;
-              `u8`: `& | ^`, `>>`/`<<` by a literal or by a usize amount whose interval is below 8, comparisons.
+              `struct` declarations; `Fe([u64; 5])` / `Scalar([u64; 5])`: `.0` is the identity, `.0[k]` = `.l<k>`, `Fe([a, …])` = `⟨a, …⟩`;
+              `arrays={("u64", 5): "Scalar"}` lets the bare `[u64; 5]` of scalar64.rs be that record as in the model);
+              `[u8; N]`, `&[u8]` = `Bytes` (static length N tracked; an `[u8; N]` PARAMETER is tested on entry: another length is not
+              expressible in Rust = `none`); erased newtypes (`SecretKey([u8; 32])`); `[i8; N]` = `List Int`, `[u64; 4]` = `List Nat`,
+              `[T; N]` of structs = `List T`; `u8` = `UInt8`; `usize`/`u64` = `Nat`; `i8` = `Int`; `bool` = `Bool`;
+              `Choice` = `CT.Choice`; `Option<T>` = `Option T`; tuples.  Untyped literals (`let mut d = 0;`, `[0; 64]`) take their type
+              from the context or from the spec's `hints`.
+  integers    `i8`: `+ - unary-` are CHECKED (`← ckI8 (a + b)`) unless the interval analysis excludes overflow, `<< k` wraps
+              (`shlI8 a k`), `>> k` = floor division by `2^k`, `/ lit` = `Int.tdiv`, `&` = two's complement and (`i8And`),
+              `as u8` = `i8AsU8`, `u8 as i8` = `u8AsI8`, `as usize` = `.toNat` only when the operand is known non-negative from the
+              path condition (`match x.cmp(&0)`);
+              `usize`: an interval analysis (literals, `for` variables with known bounds, `+ * / % & >>`, `min`, refinement by
+              `if x == 0 { return }` and by a passed bounds check of a static array) must show that `+ *` cannot overflow and `-`
+              cannot underflow, then they are the mathematical operations; otherwise `-` is emitted with its underflow check and
+              `+ *` are refused;
+              `u64` (limbs): `+ - *` are ALWAYS the models' checked `add64` / `sub64` / `mul64` binds; `& | ^ >>`, `<<` with the
+              truncation written (`(a <<< k) % 2 ^ 64`, omitted only when the operand's own range — a widened byte — excludes it);
+              `u8`: `& | ^`, `>>`/`<<` by a literal or by a usize amount whose interval is below 8, comparisons, `as u64` = `.toNat`.
+              Comparisons: `== !=` are `Bool`s, `< <= > >=` decidable `Prop`s.
   places      variables, struct fields (`self.x`, written back as `{ self with x := … }`), `a[i]` (read: `← a[i]?`, i.e. the bounds
-              check is a failure site; the same element of an unassigned array read twice is read once; write: guarded `set`, or
-              `modify` for a literal index into a static array), sub-slices `a[lo..hi]` of static arrays with literal bounds,
-              `copy_from_slice` into such sub-slices (`take ++ new ++ drop`), tuple-struct limbs `.0[k]` (= `.l<k>`).
-  statements  `let [mut] x [: T] [= e];` `x = e;` `x op= e;` `a[i] op= e;` expression statements with `&mut` effects (written
-              back), `assert!/debug_assert!` (failure guard; `debug_assert!` is active in the overflow-checked build the models
-              describe), blocks, `return e`, trailing expressions;
+              check is a failure site; the same element of an unassigned array read twice is read once; write: `set` guarded by the
+              bounds check unless the index interval is inside a static array, or `modify` for `a[lit] op= e` on a static array),
+              sub-slices `a[lo..hi]` of static arrays with constant bounds, `copy_from_slice` into such sub-slices
+              (`take ++ new ++ drop`), `<&[u8; N]>::try_from(x).unwrap()`.
+  statements  `let [mut] x [: T] [= e];` `let (a, b) = e;` `let [a, b, c, d] = e;` `x = e;` `x op= e;` `a[i] op= e;` expression
+              statements with `&mut` effects (written back), `assert!/debug_assert!` (failure guard; `debug_assert!` is active in the
+              overflow-checked build the models describe), nested blocks (their `let`s end with them), `return e`, trailing
+              expressions; `macro_rules!` items inside a function body are expanded textually (each invocation in its own block);
               `if`/`match` statements whose branches all fall through = ONE monadic value `let (assigned…) ← if c then … else …`;
-              with a diverging branch (`return`, `break`) the continuation goes to the other branch; when two branches reach a
-              non-trivial continuation it becomes a JOIN POINT def `<f>_k<n>_src` over the live variables;
-              `match` on `Option` (`Some(x) => …, None => …`) and on `a.cmp(&b)` (`Ordering::{Greater,Less,Equal}` -> `if a > b … else
-              if a < b … else …`); `||`/`&&` whose right operand can fail = nested `if`s (Rust's short circuit);
+              as the function's trailing value every branch ends in its own result; with a diverging branch (`return`, `break`) the
+              continuation goes to the other branch; when two branches reach a non-trivial continuation it becomes a JOIN POINT def
+              `<f>_k<n>_src` over the live variables;
+              `match` on `Option` (`Some(x) => …, None => …`, also as the initialiser of a `let` with a `return` arm) and on
+              `a.cmp(&b)` (`Ordering::{Greater,Less,Equal}` -> `if a > b … else if a < b … else …`); `||`/`&&` whose right operand can
+              fail = nested `if`s (Rust's short circuit); `opt.map(f)`.
   loops       `for j in lo..hi` -> aux def `<f>_loop<n>_src captured… : (cnt) → (j) → carried… → M carried` by structural recursion
               on the count (`break` = leave with the current values); `for p in (lo..hi).rev()` -> recursion on the count, `p = lo +
               cnt`; `for x in A.iter()` / `for x in A[a..b].iter_mut()` -> recursion on the list (iter_mut returns the new list and
-              the other carried variables); `loop { … }` -> aux def on FUEL given by the spec (`fuel=[…]`; running out of fuel is
-              `none`, so a tie theorem to a fuel-free model is also the proof that the fuel is adequate), `break` = the call of the
-              continuation def `<f>_k<n>_src`, `return e` = the function's result.  Loop-carried = assigned in the body and live at
-              the loop head or after the loop (liveness of the Rust variables; `let mut r: T;` without initialiser is supported).
+              the other carried variables); `for e in x.0.iter_mut()` over limbs -> unrolled; `loop { … }` -> aux def on FUEL given
+              by the spec (`fuel=[…]`; running out of fuel is `none`, so a tie theorem to a fuel-free model is also the proof that
+              the fuel is adequate), `break` = the call of the continuation def `<f>_k<n>_src`, `return e` = the function's result.
+              Loop-carried = assigned in the body (found by a trial translation) and initialised at the loop head; a `let` inside a
+              loop body that shadows a variable the recursion still needs gets a fresh Lean name; `let mut r: T;` without initialiser
+              is supported.  kind "limb_loop": `for _ in 0..n { <limb kernel> }` over the five registers (skeleton checked here, the
+              body tied by tools/kernel_translate.py).  An aux def without any failure site is a pure definition.
+  consts      kind "const": an associated `const NAME: T = <struct literal>`.
 Anything else raises TranslateError -> reported as a broken extraction (the generated placeholder makes the tie theorem fail);
 nothing is skipped silently.
 """
@@ -285,6 +303,26 @@ def find_fn_unique(src, fn, scope=None):
     if len(found) > 1:
         raise TranslateError(f"fn {fn} is defined {len(found)} times in its scope")
     return found[0]
+
+
+def expand_local_macros(body):
+    """`macro_rules! m { (params) => { … } }` items inside a function body are removed and every `m!(args);` is replaced by the
+    block `{ <body with the parameters substituted> }` (a block: the macro's own `let`s are hygienic)"""
+    while True:
+        m = re.search(r"macro_rules!\s+(\w+)\s*\{", body)
+        if not m:
+            return body
+        name = m.group(1)
+        params, mbody = ktx_misc.find_macro(body, name)
+        end = balanced_end(body, m.end())
+        body = body[:m.start()] + body[end:]
+        pat = re.compile(r"\b" + re.escape(name) + r"!\s*\(([^()]*)\)\s*;")
+        def rep(mm):
+            args = [a.strip() for a in mm.group(1).split(",")]
+            return "{ " + ktx_misc.macro_subst(mbody, params, args) + " }"
+        body, n = pat.subn(rep, body)
+        if re.search(r"\b" + re.escape(name) + r"!", body):
+            raise TranslateError(f"macro {name}: an invocation of unsupported form")
 
 
 def find_const_item(src, name, scope=None):
@@ -589,6 +627,13 @@ class MatchOpt(Node):
         self.text = text; self.a = a; self.pat = pat; self.b = b
 
 
+class MatchList(Node):
+    """`match text with | [a, b, …] => body | _ => none` (array pattern of a static-length array)"""
+
+    def __init__(self, text, names, body):
+        self.text = text; self.names = names; self.body = body
+
+
 class Ret(Node):
     def __init__(self, text):
         self.text = text
@@ -613,7 +658,7 @@ class Fail(Node):
 
 
 def children(n):
-    if isinstance(n, (Let, Bind, AuxBind)):
+    if isinstance(n, (Let, Bind, AuxBind, MatchList)):
         return [n.body]
     if isinstance(n, BindBlock):
         return [n.node, n.body]
@@ -623,7 +668,7 @@ def children(n):
 
 
 def fallible(n):
-    if isinstance(n, (Bind, Fail, Tail)):
+    if isinstance(n, (Bind, Fail, Tail, MatchList)):
         return True
     return any(fallible(c) for c in children(n))
 
@@ -653,6 +698,8 @@ def peephole(n):
         return BindBlock(n.pat, inner, body)
     if isinstance(n, If):
         return If(n.cond, peephole(n.a), peephole(n.b))
+    if isinstance(n, MatchList):
+        return MatchList(n.text, n.names, peephole(n.body))
     if isinstance(n, MatchOpt):
         return MatchOpt(n.text, peephole(n.a), n.pat, peephole(n.b))
     return n
@@ -712,6 +759,8 @@ class Render:
             if sb is not None:
                 return out + f"{s}else {sb}\n"
             return out + f"{s}else\n" + self.go(b, ind + 2)
+        if isinstance(n, MatchList):
+            return f"{s}match {n.text} with\n{s}| [" + ", ".join(n.names) + f"] =>\n" + self.go(n.body, ind + 2) + f"{s}| _ => none\n"
         if isinstance(n, MatchOpt):
             out = f"{s}match {n.text} with\n"
             sa = self.simple(n.a)
@@ -921,6 +970,9 @@ class Tr:
                 return self.conv(t[2])
             if t[0] == "arr":
                 n = self.const_usize(t[2]) if t[2] is not None else None
+                alias = getattr(self.spec, "arrays", {}).get((t[1], n)) if not getattr(self, "no_alias", False) else None
+                if alias is not None:
+                    return self.struct_ty(alias)       # `[u64; 5]` of scalar64.rs IS the limb record
                 if t[1] == "u8":
                     return TBytes(n)
                 return TList(self.conv(t[1]), n)
@@ -958,8 +1010,12 @@ class Tr:
         if sp.newtype is not None:
             if len(decl) != 1 or decl[0][0] != "0":
                 raise TranslateError(f"struct {name} is no longer a one-field tuple struct")
-            inner = self.conv(decl[0][1])
-            want = self.conv_text(sp.newtype)
+            self.no_alias = True
+            try:
+                inner = self.conv(decl[0][1])
+                want = self.conv_text(sp.newtype)
+            finally:
+                self.no_alias = False
             if not inner.same(want) or getattr(inner, "n", None) != getattr(want, "n", None):
                 raise TranslateError(f"struct {name}: declaration differs from the spec")
             if sp.lean is None:                       # erased newtype
@@ -1081,6 +1137,8 @@ class Tr:
                 r = Val(t, ety, True)
                 if v.at:
                     st.memo[key] = r
+                if ty.n is not None and ix.at and ix.lit is None:
+                    st.refine(ix.t, None, ty.n - 1)      # the bounds check of a static array passed
                 return r
             raise TranslateError("indexing a non-array value")
         if step[0] == "slice":
@@ -1182,6 +1240,10 @@ class Tr:
                 if want is None or want.kind != "option":
                     raise TranslateError("cannot type `None`")
                 return Val("none", want, True)
+            lc = getattr(self.spec, "local_consts", {})
+            if name in lc:
+                lean, rty = lc[name]
+                return Val(lean, self.conv_text(rty), True)
             key = name if name in self.prog.consts else ((self.spec.owner + name[4:]) if name.startswith("Self::") else None)
             if key in self.prog.consts:
                 lean, rty = self.prog.consts[key]
@@ -1274,6 +1336,8 @@ class Tr:
         if k == "repeat":
             n = self.const_usize(e[2])
             z = e[1]
+            if want is not None and want.kind == "struct" and want.limbs is not None and z[0] == "lit" and n == len(want.limbs):
+                return Val("⟨" + ", ".join([self.lit_text(z[1], want.elem)] * n) + "⟩", want, True)
             if z[0] == "lit" and z[1] == 0:
                 ety = TInt(z[2]) if z[2] else (TInt("u8") if want is not None and want.kind == "bytes" else (want.elem if want is not None and want.kind == "list" else None))
                 if ety is None:
@@ -1413,8 +1477,7 @@ class Tr:
         # usize / u64 / u32 as Nat
         hi_ty = INT_RANGE[rust][1]
         if rust == "u64" and op in ("+", "-", "*"):
-            safe = {"+": ah + bh <= hi_ty, "*": ah * bh <= hi_ty, "-": al >= bh}[op]
-            if not safe:                               # CHECKED limb arithmetic: the models' `add64` / `sub64` / `mul64`
+            if not (a.lit is not None and b.lit is not None):                               # CHECKED limb arithmetic: the models' `add64` / `sub64` / `mul64`
                 t = hint or self.tmp()
                 fn = {"+": "add64", "-": "sub64", "*": "mul64"}[op]
                 pre.append(lambda body: Bind(t, f"{fn} {a.p()} {b.p()}", body))
@@ -1626,6 +1689,27 @@ class Tr:
             return Val(f"min {a.p()} {b.p()}", a.ty, False, (min(al, bl), min(ah, bh)))
         if len(segs) == 2 and segs[0] == "CtEqual" and len(args) == 2:
             return self.method(("method", args[0], segs[1], [args[1]], None), st, pre, want, hint)
+        # `Fe([a, b, c, d, e])` / `Scalar(x)`
+        if len(segs) == 1 and len(args) == 1 and self.resolve_owner(path) in self.prog.structs \
+                and self.prog.structs[self.resolve_owner(path)].newtype is not None and self.prog.structs[self.resolve_owner(path)].lean is not None:
+            sty = self.struct_ty(self.resolve_owner(path))
+            a0 = strip(args[0])
+            if a0[0] == "array":
+                if len(a0[1]) != len(sty.limbs):
+                    raise TranslateError("limb constructor arity")
+                self.depth += 1
+                try:
+                    vals = [self.ex(x, st, pre, sty.elem) for x in a0[1]]
+                finally:
+                    self.depth -= 1
+                for v in vals:
+                    if not v.ty.same(sty.elem):
+                        raise TranslateError("limb constructor: element type")
+                return Val("⟨" + ", ".join(v.t for v in vals) + "⟩", sty, True)
+            v = self.ex(args[0], st, pre, sty, hint)
+            if not v.ty.same(sty):
+                raise TranslateError("limb constructor of a value that is not the limb array")
+            return v
         # newtype constructors `PublicKey(x)`
         if len(segs) == 1 and path in self.prog.structs and self.prog.structs[path].newtype is not None \
                 and self.prog.structs[path].lean is None and len(args) == 1:
@@ -1861,6 +1945,11 @@ class Tr:
         pre = []
         if pat[0] == "tuple":
             v = self.ex(init, st, pre, want)
+            if v.ty.kind == "list" and v.ty.n == len(pat[1]) and all(p_[0] == "var" for p_ in pat[1]):
+                # `let [a, b, c, d] = e;` (irrefutable in Rust: the type has exactly that length)
+                names = [self.declare(p_[1], v.ty.elem, st) for p_ in pat[1]]
+                pre.append(lambda body: MatchList(v.t, names, body))
+                return self.wrap(pre, rest(st))
             if v.ty.kind != "tuple" or len(v.ty.items) != len(pat[1]):
                 raise TranslateError("tuple pattern arity")
             names = []
@@ -2542,6 +2631,7 @@ class Tr:
     def translate(self):
         sp = self.spec
         hdr, body = find_fn_unique(self.src, sp.fn, sp.scope)
+        body = expand_local_macros(body)
         self.idents = {t[1] for t in lex(body) if t[0] == "id"} | {t[1] for t in lex(hdr) if t[0] == "id"}
         self.spec_hints = dict(getattr(sp, "hints", {}) or {})
         name, params, ret = parse_sig(hdr)
